@@ -168,7 +168,18 @@ func init() {
 				subs = keep
 			}
 			nt := int64(len(c18Tokens))
-			equiv := &sup.Space{Name: "restore-equivalence", Size: func(*sup.Ctx) int64 { return int64(len(subs)) * 2 * nt * nt * 3 }, Run: func(i int64, w *sup.W) {
+			equiv := &sup.Space{Name: "restore-equivalence", Size: func(*sup.Ctx) int64 { return int64(len(subs)) * 2 * nt * nt * 3 * 3 }, Run: func(i int64, w *sup.W) {
+				// content given to both authorizers AFTER the snapshot was loaded: nothing / a check / a fact, a rule and a policy
+				late := int(i % 3)
+				i /= 3
+				addLate := func(a biscuit.Authorizer) {
+					switch late {
+					case 1:
+						hx.Load(a, refdl.Block{Checks: []refdl.Check{chk(q(atom("late", rx.Str("never"))))}}, nil)
+					case 2:
+						hx.Load(a, refdl.Block{Facts: []refdl.Atom{atom("late", rx.Str("fresh-late"))}, Rules: []refdl.Rule{rule(atom("n", vx), atom("late", vx))}}, []refdl.Policy{deny(q(atom("late", vx)))})
+					}
+				}
 				// run limits given when the authorizers are created: none binding / 3 facts / 1 iteration
 				lim := []biscuit.AuthorizerOption{hx.LongLimits,
 					biscuit.WithWorldOptions(datalog.WithMaxDuration(time.Hour), datalog.WithMaxFacts(3)),
@@ -192,7 +203,7 @@ func init() {
 					w.Violate("C18:token-build-failed", t2.authority.String(), err.Error(), "a token")
 					return
 				}
-				human := fmt.Sprintf("content %s policies %v; snapshot taken on token(%s %v), restored for token(%s %v); authorizers created with %s", blk, pol, t1.authority, t1.blocks, t2.authority, t2.blocks, limName)
+				human := fmt.Sprintf("content %s policies %v; snapshot taken on token(%s %v), restored for token(%s %v); authorizers created with %s; added after the load: %s", blk, pol, t1.authority, t1.blocks, t2.authority, t2.blocks, limName, []string{"nothing", "check if late(\"never\")", "late(\"fresh-late\"), n($x) <- late($x), deny if late($x)"}[late])
 				saved, _ := biscuit.NewVerifier(tokA, lim)
 				hx.Load(saved, blk, pol)
 				snap, err := saved.SerializePolicies()
@@ -223,6 +234,8 @@ func init() {
 					w.Violate("C18:load-of-own-snapshot-failed", human, err.Error(), "nil")
 					return
 				}
+				addLate(direct)
+				addLate(restored)
 				od, or := c18Observe(direct), c18Observe(restored)
 				if od != or {
 					w.Class("restored-differs")
